@@ -7,9 +7,11 @@ per operation.  Helper lemmas only — the property theorems are in
 import Mqtt.Model.AckQueue
 import Mqtt.Spec.Fifo
 
+set_option linter.unusedSimpArgs false
+
 namespace Mqtt.Proofs.AckQueue
 
-open Mqtt.Generated Mqtt.Model.AckQueue
+open Mqtt.Generated Mqtt.Model.AckQueue Mqtt.Iface.AckQ
 open Mqtt.Spec
 
 /-! ### association-list map -/
@@ -122,7 +124,25 @@ def absPing (a : AckMsg) : Option Fifo.Entry :=
 
 def abs (q : Q) : Fifo.S := ⟨(window q).map toEntry, absPing q.ping⟩
 
-def terminal (t : Nat) : Bool := ackedReleaseStates.contains t
+/-! ### the regenerated tables are the protocol's
+
+These are the side conditions that tie `Generated.Facts` (re-read from the Go
+source on every run) to the protocol constants of the specification; when the
+source changes a table, they stop checking. -/
+
+theorem facts_terminal (t : Nat) : ackedReleaseStates.contains t = Fifo.terminal t := by
+  simp only [ackedReleaseStates, Fifo.terminal, Fifo.PUBACK, Fifo.PUBREL, Fifo.PUBCOMP,
+    Fifo.SUBACK, Fifo.UNSUBACK, List.contains_cons, List.contains_nil, Bool.or_false, Bool.or_assoc]
+
+theorem facts_idack (t : Nat) : ackIdTypes.contains t = Fifo.isIdAck t := by
+  simp only [ackIdTypes, Fifo.isIdAck, Fifo.PUBACK, Fifo.PUBREC, Fifo.PUBREL, Fifo.PUBCOMP,
+    Fifo.SUBACK, Fifo.UNSUBACK, List.contains_cons, List.contains_nil, Bool.or_false, Bool.or_assoc]
+
+theorem facts_types : tPUBLISH = Fifo.PUBLISH ∧ tSUBSCRIBE = Fifo.SUBSCRIBE ∧
+    tUNSUBSCRIBE = Fifo.UNSUBSCRIBE ∧ tPINGREQ = Fifo.PINGREQ ∧ tPINGRESP = Fifo.PINGRESP ∧
+    ackPingType = Fifo.PINGRESP := by decide
+
+abbrev terminal := Fifo.terminal
 
 /-! ### initial state -/
 
@@ -613,7 +633,8 @@ theorem drain_refines (fuel : Nat) {q : Q} (h : Inv q) (hf : q.count ≤ fuel) (
         omega
       simp only [he]
       obtain ⟨hi, hw⟩ := removeHead_refines h hpos
-      by_cases ht : ackedReleaseStates.contains (q.get q.head).state = true
+      rw [facts_terminal]
+      by_cases ht : Fifo.terminal (q.get q.head).state = true
       · simp only [Bool.false_eq_true, ↓reduceIte, ht]
         have := ih hi (by rw [removeHead_count hpos]; omega) (acc ++ [q.get q.head])
         obtain ⟨a, b, c, d⟩ := this
@@ -626,7 +647,7 @@ theorem drain_refines (fuel : Nat) {q : Q} (h : Inv q) (hf : q.count ≤ fuel) (
           simp [this]
       · simp only [Bool.false_eq_true, ↓reduceIte, ht]
         have : terminal (q.get q.head).state = false := by
-          simpa [terminal, Q.get] using ht
+          simpa using ht
         refine ⟨h, trivial, ?_, ?_⟩
         · rw [hw]; simp [this]
         · rw [hw]; simp [this]
